@@ -351,6 +351,7 @@ func (e Engine) finish(c *Case, f *failure, h uint64, err error, agg *core.Agg) 
 		// infrastructure trouble must never look like a violation
 		panic(err)
 	}
+	agg.SetRunHash(h)
 	if agg != nil {
 		agg.Inc("worlds")
 		agg.Add("world.packages", int64(len(c.World.Pkgs)))
